@@ -44,24 +44,56 @@ def self_attrs(e):
     return out
 
 
+def _writer_functions(c):
+    """marshal(), marshal_options() and the private helpers of the class they call (a details/options dict built in an extracted
+    method is still part of what marshal writes)"""
+    names = ["marshal_options", "marshal"]
+    seen = set(names)
+    work = list(names)
+    while work:
+        fn = c.methods.get(work.pop())
+        if fn is None:
+            continue
+        for call in calls_in(fn.node):
+            f = call.func
+            if isinstance(f, ast.Attribute) and isinstance(f.value, ast.Name) and f.value.id == "self" and f.attr.startswith("_") and not f.attr.startswith("__") \
+                    and f.attr in c.methods and f.attr not in seen:
+                seen.add(f.attr)
+                names.insert(0, f.attr)
+                work.append(f.attr)
+    return names
+
+
+def _is_dict_builder_call(c, v):
+    return isinstance(v, ast.Call) and isinstance(v.func, ast.Attribute) and isinstance(v.func.value, ast.Name) and v.func.value.id == "self" \
+        and v.func.attr in _writer_functions(c) and v.func.attr != "marshal"
+
+
 def writer_table(ctx, c):
     """key -> list of (attrs in value, guard facts, node, fn); positions: list of shapes (list of element texts)."""
     an = get_analysis(ctx)
     keys = {}
     shapes = []
-    for name in ("marshal_options", "marshal"):
+    for name in _writer_functions(c):
         fn = c.methods.get(name)
         if fn is None:
             continue
         ctx.analysed(fn)
         g, mf, res = an.get(fn)
+        from .common import local_canon, _Subst
+        import copy as _copy
+        _canon = local_canon(fn)
+
+        def self_attrs_c(e):
+            """attributes of self the value is computed from, single-definition locals expanded (`reason = self.reason; d["reason"] = reason`)"""
+            return self_attrs(_Subst(_canon).visit(ast.Expression(body=_copy.deepcopy(e))).body)
         for n in g.stmt_nodes():
             if n.kind != "stmt":
                 continue
             a = n.ast
             if isinstance(a, ast.Assign) and len(a.targets) == 1 and isinstance(a.targets[0], ast.Subscript) and isinstance(a.targets[0].value, ast.Name) \
                     and isinstance(a.targets[0].slice, ast.Constant) and isinstance(a.targets[0].slice.value, str):
-                attrs = self_attrs(a.value)
+                attrs = self_attrs_c(a.value)
                 if not attrs:
                     # container created empty and filled in a loop over an attribute: d["k"] = {}; for x in self.f...: d["k"][..] = ..
                     base = norm.text(a.targets[0])
@@ -213,14 +245,14 @@ def rule_tables(ctx):
                     ctx.ob(f"{c.name}: shape of length {len(elts)} starts with the type code", ok, f"first element {norm.text(e)}", mfn.loc(node))
                     continue
                 attrs = self_attrs(e)
-                if isinstance(e, ast.Call) and norm.text(e.func) == "self.marshal_options":
+                if _is_dict_builder_call(c, e):
                     ctx.ob(f"{c.name}: position {i} of the length-{len(elts)} shape is the options/details dict", True)
                     continue
                 if isinstance(e, ast.Name) and not attrs:
                     # local (options/details dict or converted payload)
                     vals = [s.value for s in walk_no_defs(mfn.node) if isinstance(s, ast.Assign) and any(isinstance(t, ast.Name) and t.id == e.id for t in s.targets)]
                     attrs = [a for v in vals for a in self_attrs(v)]
-                    if any(isinstance(v, ast.Call) and norm.text(v.func) == "self.marshal_options" for v in vals) or any(isinstance(v, ast.Dict) for v in vals):
+                    if any(_is_dict_builder_call(c, v) for v in vals) or any(isinstance(v, ast.Dict) for v in vals):
                         ctx.ob(f"{c.name}: position {i} of the length-{len(elts)} shape is the options/details dict", i not in rpos or True, "", mfn.loc(node))
                         continue
                 params = rpos.get(i, set())
@@ -446,6 +478,74 @@ def rule_json_bytes(ctx):
         ctx.ob(f"{nm}: prefix test covers exactly the prefix", dexpr in (want, f"s[:{len(epref)}]"), f"decoder tests {dexpr}", ps.loc())
         ctx.ob(f"{nm}: decoder strips exactly the prefix", off == len(epref), f"decodes s[{off}:] after a {len(epref)}-character prefix", ps.loc())
         ctx.ob(f"{nm}: decoder applies the inverse of the encoder's function", PAIRS.get(efn_) == dfn, f"{efn_} vs {dfn}", ps.loc())
+    # ... and the round trip itself, cell-wise (sa.core.tiny; hex / base64 of the standard library answered by the oracle): what default()
+    # writes for a binary value, handed to _parse_string as the scanned JSON string, comes back as that binary value -- the empty one included
+    from ..core.tiny import Tiny, Sym, Buf, _to_py, _from_py
+    import binascii as _ba
+    import base64 as _b64
+    probs, ncell = [], 0
+
+    def lib(f_, a_, k_=None):
+        short = f_.split(".")[-1]
+        arg = _to_py(a_[0]) if a_ else None
+        if isinstance(arg, str) and short in ("a2b_hex", "unhexlify", "b64decode"):
+            arg = arg.encode("ascii")
+        if isinstance(arg, str) and arg == "":
+            arg = b""
+        try:
+            if short in ("b2a_hex", "hexlify"):
+                return _from_py(_ba.b2a_hex(arg))
+            if short in ("a2b_hex", "unhexlify"):
+                lib.decoded = True
+                return _from_py(_ba.a2b_hex(arg))
+            if short == "b64encode":
+                return _from_py(_b64.b64encode(arg))
+            if short == "b64decode":
+                lib.decoded = True
+                return _from_py(_b64.b64decode(arg))
+        except Exception as ex:
+            from ..core.tiny import TinyRaise
+            raise TinyRaise(type(ex).__name__)
+        if short == "scanstring":
+            return lib.scanned
+        if short == "isinstance":
+            return isinstance(_to_py(a_[0]), bytes) or (isinstance(a_[0], Buf))
+        return Sym(f"<{f_}>")
+    try:
+        for hexmode in (True, False):
+            for b in (b"", b"\x00", b"\x00\xff\x10abc", b"0x"):
+                env = {"self": Sym("codec"), "self._use_binary_hex_encoding": hexmode, "self._use_decimal_from_str": False, efn.params()[1]: _from_py(b),
+                       "bytes": bytes}
+                r1 = Tiny(env, default_call=lib, model_strings=True, model_types=True, opaque_globals=True).run(
+                    [x for x in efn.node.body if not (isinstance(x, ast.Expr) and isinstance(x.value, ast.Constant))])
+                ncell += 1
+                tag = f"{'hex' if hexmode else 'base64'} mode, binary value {b!r}"
+                text = _to_py(r1[1]) if r1[0] == "return" else None
+                if not isinstance(text, str):
+                    probs.append(f"{tag}: encoder gives {r1[0]} {str(r1[1])[:40]}")
+                    continue
+                lib.scanned = [_from_py(text), 7]
+                lib.decoded = False
+                env2 = {"self": Sym("codec"), "self._use_binary_hex_encoding": hexmode, "self._use_decimal_from_str": False, "args": [], "kwargs": {}}
+                r2 = Tiny(env2, default_call=lib, model_strings=True, model_types=True, opaque_globals=True).run(
+                    [x for x in ps.node.body if not (isinstance(x, ast.Expr) and isinstance(x.value, ast.Constant))])
+                got = _to_py(r2[1][0]) if r2[0] == "return" and isinstance(r2[1], list) and len(r2[1]) == 2 else None
+                if got == "" and lib.decoded:
+                    got = b""  # the empty octet string is modelled like the empty text: told apart by whether the inverse function ran
+                if not (isinstance(got, bytes) and got == b):
+                    probs.append(f"{tag}: written as {text!r}, read back as {got!r} ({r2[0]})")
+            for plain in ("abc", "x0"):
+                lib.scanned = [plain, 3]
+                env2 = {"self": Sym("codec"), "self._use_binary_hex_encoding": hexmode, "self._use_decimal_from_str": False, "args": [], "kwargs": {}}
+                r2 = Tiny(env2, default_call=lib, model_strings=True, model_types=True, opaque_globals=True).run(
+                    [x for x in ps.node.body if not (isinstance(x, ast.Expr) and isinstance(x.value, ast.Constant))])
+                ncell += 1
+                if not (r2[0] == "return" and isinstance(r2[1], list) and _to_py(r2[1][0]) == plain):
+                    probs.append(f"{'hex' if hexmode else 'base64'} mode, ordinary string {plain!r}: read back as {r2[1]}")
+    except AnalysisError as e:
+        raise AnalysisError(f"[C03.5-json-bytes-convention] JSON bytes codec outside the modelled subset: {e}")
+    ctx.ob(f"JSON bytes convention round trip: what default() writes for a binary value is read back as that value, the empty one included [{ncell} cells]",
+           not probs, "; ".join(probs[:2]), ps.loc())
     for q in ("_loads", "_dumps"):
         f = sm.funcs.get(q)
         ctx.require(f is not None, f"{q} missing")
